@@ -2,7 +2,8 @@
 (* Extra X18 (no listed property): iora::network::dns::DnsTransport (network/dns/dns_transport.hpp) - the life of DNS      *)
 (* queries against a SCRIPTED server.  What a user of queryAsync()/query() relies on:                                      *)
 (*   P1 exactly once   every issued query ends with exactly one completion callback (answer, error or timeout): never two,  *)
-(*                     never none - a pending query always has an armed timer, stop() completes what is pending;            *)
+(*                     never none - a pending query always has an armed timer, stop() completes what is pending, and a      *)
+(*                     well-formed response to a pending query completes it (it is not lost);                               *)
 (*   P2 after stop     stop() returns only after every pending query was completed ("Transport stopped") and nothing        *)
 (*                     completes afterwards; a query issued on a stopped transport completes at once ("not running");       *)
 (*   P3 matching       a completion carries a response the server sent FOR THAT QUERY (same id, same server, same question) *)
@@ -13,159 +14,208 @@
 (*   P5 budget         the number of times a query is put on the wire stays within 1 + retryCount (+1 for the TCP fallback);*)
 (*   P6 timeouts       a timeout completion is never earlier than config.timeout after the call (checked on the trace only: *)
 (*                     this specification is untimed).                                                                       *)
-(* The specification is shaped like the code: pendingQueries_ (st), PendingQuery::tcpFallback (fb), activeTimerId (tmo),    *)
-(* one action per branch of processResponse / completeQuery / the timeout timer / stop(), and - when WithCleanup - the      *)
-(* 10-second cleanup thread with its four phases and retryQuery's retry timer.  The server is a script: every response      *)
-(* gets the next tag; the completion records which response caused it, so the properties are local to `done`.              *)
-(* Slips are CONSTANT Dev_* flags (default FALSE); the two ways the real code is known to depart from P3/P4 are among them  *)
-(* (Dev_NoQuestionCheck, Dev_DupTruncCompletes) and Dev_CleanupRace is the code's non-atomic cleanup (phase 1 collects,     *)
-(* phase 3 erases, phase 4 calls back without re-checking).                                                                  *)
+(* The specification is shaped like the code: pendingQueries_ (st), PendingQuery::tcpFallback (fb), activeTimerId (ord),    *)
+(* serverSessions_ / sessionToServer_ (usid, tsid, s2s), getNextServer's round robin (rr), one action per branch of         *)
+(* processResponse / completeQuery / the timeout timer / stop(), and - when WithCleanup - the 10-second cleanup thread with *)
+(* its four phases and retryQuery's retry timer.  The server is a script: every response gets the next tag; the completion  *)
+(* records which response caused it, so the properties are local to `done`.                                                *)
+(* Slips are CONSTANT Dev_* flags (default FALSE).  Three of them are how the code behaves today (observations O1, O2, O4   *)
+(* of checks/X18.meta.json): Dev_NoQuestionCheck, Dev_DupTruncCompletes, Dev_SharedSessionIds (sessionToServer_ is keyed by *)
+(* the bare SessionId although the UDP and the TCP Transport both count their sessions from 1: after a TCP fallback to the  *)
+(* server whose UDP session has another number, the responses of one UDP session are attributed to the wrong server and     *)
+(* dropped).  Dev_CleanupRace is the code's non-atomic cleanup (phase 1 collects, phase 3 erases, phase 4 calls back        *)
+(* without re-checking) - reachable only while a timeout timer is late.                                                      *)
 EXTENDS Naturals, Sequences, FiniteSets, TLC
 CONSTANTS Queries,        \* e.g. {1, 2}
-          Modes,          \* subset of {"U", "B", "T"}  (DnsTransportMode UDP / Both / TCP); chosen in Init
+          Modes,          \* subset of {"U", "B", "T"}  (DnsTransportMode UDP / Both / TCP)
+          NSrvs,          \* subset of {1, 2}: number of configured servers
           MaxResp,        \* responses the scripted server sends in one script
           Retries,        \* config.retryCount
           WithCleanup,    \* model the cleanup thread + retry timer
           WithStop,       \* stop() may be called
+          FifoTimers,     \* all timeout timers have the same duration: they fire in the order they were armed (used for the
+                          \* test plan, where the driver keeps the armings apart; FALSE = any armed timer may fire)
           Dev_NoErase, Dev_AcceptAnyId, Dev_NoQuestionCheck, Dev_TimeoutNoPendingCheck, Dev_TruncCompletes,
           Dev_DupTruncCompletes, Dev_StopSkipsPending, Dev_FallbackTwice, Dev_CleanupRace, Dev_RetryOffByOne,
-          Dev_FallbackDisarms
+          Dev_FallbackDisarms, Dev_SharedSessionIds
 
-VARIABLES mode, running,
+VARIABLES mode, nsrv, running,
           st,      \* [Queries -> {"idle", "udp", "tcp", "done"}]   "udp"/"tcp" = registered in pendingQueries_
           fb,      \* [Queries -> BOOLEAN]     PendingQuery::tcpFallback
-          tmo,     \* [Queries -> BOOLEAN]     a timeout timer of the query is armed
+          ord,     \* Seq(Queries)             the queries whose timeout timer is armed, in the order of arming
           rtm,     \* [Queries -> BOOLEAN]     a retry timer of the query is armed (cleanup path)
           retr,    \* [Queries -> Nat]         PendingQuery::retryCount
           wire,    \* [Queries -> [udp: Nat, tcp: Nat]]  times the query was put on the wire, per protocol
           nresp,   \* responses sent so far = tag of the last one
           done,    \* [Queries -> Seq([kind, rq, rk])]  completions: kind of completion, query the causing response was built
                    \*                                   for (0: none), kind of that response ("-": none)
+          lost,    \* queries for which a completing response was dropped while they were pending
+          rr,      \* serverIndex_
+          srvOf,   \* [Queries -> server]
+          usid, tsid,  \* [server -> session id of the UDP / TCP Transport, 0 = none]   (serverSessions_)
+          s2s,     \* [session id -> server, 9 = none]                                   (sessionToServer_, one map for both)
           cl,      \* cleanup thread: set of collected (expired) queries still to be looked at  (phase 2)
           clc,     \* cleanup thread: queries marked for timeout completion (phases 3, 4)
           clpc     \* cleanup thread: "idle" | "phase2" | "phase3"
-vars == <<mode, running, st, fb, tmo, rtm, retr, wire, nresp, done, cl, clc, clpc>>
+qvars == <<st, fb, ord, rtm, retr, wire, nresp, done, lost>>
+svars == <<rr, srvOf, usid, tsid, s2s>>
+cvars == <<cl, clc, clpc>>
+vars == <<mode, nsrv, running, qvars, svars, cvars>>
+Srvs == {0, 1}
 
 Pending(q) == st[q] \in {"udp", "tcp"}
+Armed(q) == \E i \in 1..Len(ord) : ord[i] = q
+Without(q) == SelectSeq(ord, LAMBDA x : x # q)           \* TimerService::cancel / the timer fired
+ArmSeq(q) == Append(Without(q), q)                       \* scheduleQueryTimeout: cancel the old one, arm a new one
 Protos(q) == {p \in {"udp", "tcp"} : wire[q][p] > 0}      \* the server can answer over a protocol it was asked on
 Compl(k, rq, rk) == [kind |-> k, rq |-> rq, rk |-> rk]
+\* connect() of the UDP / TCP Transport: each numbers its sessions 1, 2, ...
+NextSid(f) == Cardinality({s \in Srvs : f[s] > 0}) + 1
+Open(f, s) == IF f[s] > 0 THEN f ELSE [f EXCEPT ![s] = NextSid(f)]
+Map(f, s) == IF f[s] > 0 THEN s2s ELSE [s2s EXCEPT ![NextSid(f)] = s]
+\* handleUdpData / handleTcpData look the server of the session up in sessionToServer_
+Routed(q, p) == \/ ~Dev_SharedSessionIds
+                \/ s2s[IF p = "udp" THEN usid[srvOf[q]] ELSE tsid[srvOf[q]]] = srvOf[q]
 
-Init == /\ mode \in Modes /\ running = TRUE
-        /\ st = [q \in Queries |-> "idle"] /\ fb = [q \in Queries |-> FALSE] /\ tmo = [q \in Queries |-> FALSE]
+Init == /\ mode = "-" /\ nsrv = 0 /\ running = TRUE
+        /\ st = [q \in Queries |-> "idle"] /\ fb = [q \in Queries |-> FALSE] /\ ord = <<>>
         /\ rtm = [q \in Queries |-> FALSE] /\ retr = [q \in Queries |-> 0]
-        /\ wire = [q \in Queries |-> [udp |-> 0, tcp |-> 0]] /\ nresp = 0 /\ done = [q \in Queries |-> <<>>]
+        /\ wire = [q \in Queries |-> [udp |-> 0, tcp |-> 0]] /\ nresp = 0 /\ done = [q \in Queries |-> <<>>] /\ lost = {}
+        /\ rr = 0 /\ srvOf = [q \in Queries |-> 0] /\ usid = [s \in Srvs |-> 0] /\ tsid = [s \in Srvs |-> 0]
+        /\ s2s = [i \in 1..2 |-> 9]
         /\ cl = {} /\ clc = {} /\ clpc = "idle"
 
 \* completeQuery(): find + erase under queriesMutex_, cancel the active timer, call back
 Complete(q, k, rq, rk) ==
   /\ st' = [st EXCEPT ![q] = IF Dev_NoErase THEN @ ELSE "done"]
-  /\ tmo' = [tmo EXCEPT ![q] = Dev_TimeoutNoPendingCheck]   \* cancel(activeTimerId); a callback already dequeued by the
+  /\ ord' = IF Dev_TimeoutNoPendingCheck THEN ord ELSE Without(q)  \* cancel(activeTimerId); a callback already dequeued by the
   /\ done' = [done EXCEPT ![q] = Append(@, Compl(k, rq, rk))]  \* timer thread still runs: its own pending check is the net
 
 \* ---------------------------------------------------------------------------------------------- the caller
-\* queryAsync(): register, send (UDP unless mode TCP), arm the timeout timer
-Query(q) == /\ running /\ st[q] = "idle"
-            /\ LET p == IF mode = "T" THEN "tcp" ELSE "udp" IN
+\* DnsConfig::transportMode and ::servers, fixed before start()
+Configure(m, n) == /\ mode = "-" /\ m \in Modes /\ n \in NSrvs /\ mode' = m /\ nsrv' = n
+                   /\ UNCHANGED <<running, qvars, svars, cvars>>
+\* queryAsync(): next server (round robin), register, get or create the session, send (UDP unless mode TCP), arm the timer
+Query(q) == /\ mode # "-" /\ running /\ st[q] = "idle"
+            /\ LET p == IF mode = "T" THEN "tcp" ELSE "udp"
+                   s == rr % nsrv IN
                /\ st' = [st EXCEPT ![q] = p] /\ wire' = [wire EXCEPT ![q][p] = @ + 1]
-            /\ tmo' = [tmo EXCEPT ![q] = TRUE]
-            /\ UNCHANGED <<mode, running, fb, rtm, retr, nresp, done, cl, clc, clpc>>
+               /\ rr' = rr + 1 /\ srvOf' = [srvOf EXCEPT ![q] = s]
+               /\ IF p = "udp" THEN usid' = Open(usid, s) /\ s2s' = Map(usid, s) /\ UNCHANGED tsid
+                               ELSE tsid' = Open(tsid, s) /\ s2s' = Map(tsid, s) /\ UNCHANGED usid
+            /\ ord' = ArmSeq(q)
+            /\ UNCHANGED <<mode, nsrv, running, fb, rtm, retr, nresp, done, lost, cvars>>
 \* queryAsync() on a transport that is not running: immediate error callback
 QueryStopped(q) == /\ ~running /\ st[q] = "idle"
                    /\ st' = [st EXCEPT ![q] = "done"] /\ done' = [done EXCEPT ![q] = Append(@, Compl("notrunning", 0, "-"))]
-                   /\ UNCHANGED <<mode, running, fb, tmo, rtm, retr, wire, nresp, cl, clc, clpc>>
+                   /\ UNCHANGED <<mode, nsrv, running, fb, ord, rtm, retr, wire, nresp, lost, svars, cvars>>
 \* stop(): joins the cleanup thread, stops the transports (no I/O callback afterwards), completes everything pending,
 \* stops the timer service (no timer callback afterwards)
-Stop == /\ WithStop /\ running /\ clpc = "idle"
+Stop == /\ WithStop /\ mode # "-" /\ running /\ clpc = "idle"
         /\ running' = FALSE
         /\ st' = [q \in Queries |-> IF Pending(q) THEN "done" ELSE st[q]]
         /\ done' = [q \in Queries |-> IF Pending(q) /\ ~Dev_StopSkipsPending THEN Append(done[q], Compl("stopped", 0, "-")) ELSE done[q]]
-        /\ tmo' = [q \in Queries |-> FALSE] /\ rtm' = [q \in Queries |-> FALSE]
-        /\ UNCHANGED <<mode, fb, retr, wire, nresp, cl, clc, clpc>>
+        /\ ord' = <<>> /\ rtm' = [q \in Queries |-> FALSE]
+        /\ UNCHANGED <<mode, nsrv, fb, retr, wire, nresp, lost, svars, cvars>>
 
 \* ---------------------------------------------------------------------------------------------- the scripted server
 CanRespond(q, p) == running /\ nresp < MaxResp /\ p \in Protos(q)
 Tick == nresp' = nresp + 1
-Rest == UNCHANGED <<mode, running, fb, rtm, retr, wire, cl, clc, clpc>>
+Rest == UNCHANGED <<mode, nsrv, running, fb, rtm, retr, wire, lost, svars, cvars>>
+Ignored == UNCHANGED <<st, ord, done>>
 \* a well-formed answer / NXDOMAIN with the id and question of q: processResponse -> completeQuery(key, result)
-RespAnswerHit(q, p) == CanRespond(q, p) /\ Pending(q) /\ Tick /\ Complete(q, "ans", q, "ans") /\ Rest
-RespAnswerLate(q, p) == CanRespond(q, p) /\ ~Pending(q) /\ Tick /\ UNCHANGED <<st, tmo, done>> /\ Rest   \* "unknown query"
-RespNxHit(q, p) == CanRespond(q, p) /\ Pending(q) /\ Tick /\ Complete(q, "nx", q, "nx") /\ Rest
+RespAnswerHit(q, p) == CanRespond(q, p) /\ Pending(q) /\ Routed(q, p) /\ Tick /\ Complete(q, "ans", q, "ans") /\ Rest
+RespAnswerLate(q, p) == CanRespond(q, p) /\ ~Pending(q) /\ Tick /\ Ignored /\ Rest                       \* "unknown query"
+RespNxHit(q, p) == CanRespond(q, p) /\ Pending(q) /\ Routed(q, p) /\ Tick /\ Complete(q, "nx", q, "nx") /\ Rest
 \* TC=1 over UDP
-RespTruncFallback(q) == /\ CanRespond(q, "udp") /\ Pending(q) /\ mode = "B" /\ (~fb[q] \/ Dev_FallbackTwice) /\ ~Dev_TruncCompletes
+RespTruncFallback(q) == /\ CanRespond(q, "udp") /\ Pending(q) /\ Routed(q, "udp") /\ mode = "B"
+                        /\ (~fb[q] \/ Dev_FallbackTwice) /\ ~Dev_TruncCompletes
                         /\ Tick /\ fb' = [fb EXCEPT ![q] = TRUE] /\ st' = [st EXCEPT ![q] = "tcp"]
                         /\ wire' = [wire EXCEPT ![q].tcp = @ + 1]
-                        /\ tmo' = [tmo EXCEPT ![q] = ~Dev_FallbackDisarms]     \* scheduleQueryTimeout: cancel + re-arm
-                        /\ UNCHANGED <<mode, running, rtm, retr, done, cl, clc, clpc>>
-RespTruncDeliver(q) == /\ CanRespond(q, "udp") /\ Pending(q) /\ (mode = "U" \/ (mode = "B" /\ Dev_TruncCompletes))
+                        /\ tsid' = Open(tsid, srvOf[q]) /\ s2s' = Map(tsid, srvOf[q])     \* sendTcpQuery: get or create
+                        /\ ord' = IF Dev_FallbackDisarms THEN Without(q) ELSE ArmSeq(q)    \* scheduleQueryTimeout: cancel + re-arm
+                        /\ UNCHANGED <<mode, nsrv, running, rtm, retr, done, lost, rr, srvOf, usid, cvars>>
+RespTruncDeliver(q) == /\ CanRespond(q, "udp") /\ Pending(q) /\ Routed(q, "udp") /\ (mode = "U" \/ (mode = "B" /\ Dev_TruncCompletes))
                        /\ Tick /\ Complete(q, "trunc", q, "trunc") /\ Rest
 \* mode Both, fallback already under way, a second truncated datagram: the code falls through to completeQuery
-RespTruncDup(q) == /\ CanRespond(q, "udp") /\ Pending(q) /\ mode = "B" /\ fb[q] /\ ~Dev_FallbackTwice /\ ~Dev_TruncCompletes
-                   /\ Tick /\ Rest
-                   /\ IF Dev_DupTruncCompletes THEN Complete(q, "trunc", q, "trunc") ELSE UNCHANGED <<st, tmo, done>>
-RespTruncLate(q) == CanRespond(q, "udp") /\ ~Pending(q) /\ Tick /\ UNCHANGED <<st, tmo, done>> /\ Rest
+TruncDup(q) == /\ CanRespond(q, "udp") /\ Pending(q) /\ Routed(q, "udp") /\ mode = "B" /\ fb[q]
+               /\ ~Dev_FallbackTwice /\ ~Dev_TruncCompletes
+RespTruncDup(q) == TruncDup(q) /\ ~Dev_DupTruncCompletes /\ Tick /\ Rest /\ Ignored
+RespTruncDupHit(q) == TruncDup(q) /\ Dev_DupTruncCompletes /\ Tick /\ Rest /\ Complete(q, "trunc", q, "trunc")
+RespTruncLate(q) == CanRespond(q, "udp") /\ ~Pending(q) /\ Tick /\ Ignored /\ Rest
 \* a response whose id is no pending query's id (same question): ignored
 RespWrongId(q, p) == /\ CanRespond(q, p) /\ Tick /\ Rest
-                     /\ IF Dev_AcceptAnyId /\ Pending(q) THEN Complete(q, "ans", q, "wrongid") ELSE UNCHANGED <<st, tmo, done>>
+                     /\ IF Dev_AcceptAnyId /\ Pending(q) THEN Complete(q, "ans", q, "wrongid") ELSE Ignored
 \* a response with q's id but another question
-RespWrongQ(q, p) == /\ CanRespond(q, p) /\ Tick /\ Rest
-                    /\ IF Dev_NoQuestionCheck /\ Pending(q) THEN Complete(q, "ans", q, "wrongq") ELSE UNCHANGED <<st, tmo, done>>
+RespWrongQ(q, p) == CanRespond(q, p) /\ ~(Dev_NoQuestionCheck /\ Pending(q) /\ Routed(q, p)) /\ Tick /\ Rest /\ Ignored
+RespWrongQHit(q, p) == /\ CanRespond(q, p) /\ Dev_NoQuestionCheck /\ Pending(q) /\ Routed(q, p)
+                       /\ Tick /\ Rest /\ Complete(q, "ans", q, "wrongq")
 \* the same id arriving from the OTHER configured server: the key (id, server, port) differs - ignored
-RespOtherServer(q) == /\ running /\ nresp < MaxResp /\ wire[q].udp > 0 /\ Tick /\ Rest /\ UNCHANGED <<st, tmo, done>>
+RespOtherServer(q) == /\ running /\ nresp < MaxResp /\ nsrv = 2 /\ wire[q].udp > 0 /\ Tick /\ Rest /\ Ignored
 \* an unparsable message that starts with q's id: completeQuery(key, DnsParseException)
-RespMalformedHit(q, p) == CanRespond(q, p) /\ Pending(q) /\ Tick /\ Complete(q, "parse", q, "malformed") /\ Rest
-RespMalformedLate(q, p) == CanRespond(q, p) /\ ~Pending(q) /\ Tick /\ UNCHANGED <<st, tmo, done>> /\ Rest
+RespMalformedHit(q, p) == CanRespond(q, p) /\ Pending(q) /\ Routed(q, p) /\ Tick /\ Complete(q, "parse", q, "malformed") /\ Rest
+RespMalformedLate(q, p) == CanRespond(q, p) /\ ~Pending(q) /\ Tick /\ Ignored /\ Rest
+\* Dev_SharedSessionIds: a response (k: "ans", "nx", "trunc", "malformed") of a pending query arrives on a session whose
+\* sessionToServer_ entry was overwritten by the other Transport's session of the same number: key mismatch, dropped
+RespMisrouted(q, p, k) == /\ CanRespond(q, p) /\ Pending(q) /\ ~Routed(q, p) /\ (k = "trunc" => p = "udp")
+                          /\ Tick /\ Ignored /\ lost' = lost \cup {q}
+                          /\ UNCHANGED <<mode, nsrv, running, fb, rtm, retr, wire, svars, cvars>>
 
 \* ---------------------------------------------------------------------------------------------- timers
 \* the timeout timer (timer thread): still pending? erase, call back with DnsTimeoutException
-Timeout(q) == /\ running /\ tmo[q] /\ (Pending(q) \/ Dev_TimeoutNoPendingCheck)
-              /\ Complete(q, "timeout", 0, "-")
-              /\ UNCHANGED <<mode, running, fb, rtm, retr, wire, nresp, cl, clc, clpc>>
+Timeout(q) == /\ running /\ Armed(q) /\ (FifoTimers => Head(ord) = q) /\ (Pending(q) \/ Dev_TimeoutNoPendingCheck)
+              /\ st' = [st EXCEPT ![q] = "done"] /\ ord' = Without(q)
+              /\ done' = [done EXCEPT ![q] = Append(@, Compl("timeout", 0, "-"))]
+              /\ UNCHANGED <<mode, nsrv, running, fb, rtm, retr, wire, nresp, lost, svars, cvars>>
 \* the timer of a query that is no longer pending (only reachable on the retry path, where a timeout timer is orphaned)
-TimeoutStale(q) == /\ running /\ tmo[q] /\ ~Pending(q) /\ ~Dev_TimeoutNoPendingCheck
-                   /\ tmo' = [tmo EXCEPT ![q] = FALSE]
-                   /\ UNCHANGED <<mode, running, st, fb, rtm, retr, wire, nresp, done, cl, clc, clpc>>
+TimeoutStale(q) == /\ running /\ Armed(q) /\ (FifoTimers => Head(ord) = q) /\ ~Pending(q) /\ ~Dev_TimeoutNoPendingCheck
+                   /\ ord' = Without(q)
+                   /\ UNCHANGED <<mode, nsrv, running, st, fb, rtm, retr, wire, nresp, done, lost, svars, cvars>>
 
 \* ---------------------------------------------------------------------------------------------- cleanup thread (10 s)
 \* phase 1: under the lock collect the queries whose timeout has elapsed (their timer has not fired yet: it is late)
 CleanupCollect == /\ WithCleanup /\ running /\ clpc = "idle"
-                  /\ \E S \in SUBSET {q \in Queries : Pending(q) /\ tmo[q]} : S # {} /\ cl' = S
+                  /\ \E S \in SUBSET {q \in Queries : Pending(q) /\ Armed(q)} : S # {} /\ cl' = S
                   /\ clc' = {} /\ clpc' = "phase2"
-                  /\ UNCHANGED <<mode, running, st, fb, tmo, rtm, retr, wire, nresp, done>>
+                  /\ UNCHANGED <<mode, nsrv, running, qvars, svars>>
 \* phase 2, no lock: retryQuery (bump retryCount, arm the retry timer - the timeout timer stays armed) or mark for completion
 CleanupLook(q) == /\ clpc = "phase2" /\ q \in cl /\ cl' = cl \ {q}
                   /\ IF retr[q] < Retries + (IF Dev_RetryOffByOne THEN 1 ELSE 0)
                      THEN /\ retr' = [retr EXCEPT ![q] = @ + 1] /\ rtm' = [rtm EXCEPT ![q] = TRUE] /\ UNCHANGED clc
                      ELSE /\ clc' = clc \cup {q} /\ UNCHANGED <<retr, rtm>>
-                  /\ UNCHANGED <<mode, running, st, fb, tmo, wire, nresp, done, clpc>>
+                  /\ UNCHANGED <<mode, nsrv, running, st, fb, ord, wire, nresp, done, lost, svars, clpc>>
 CleanupPhase3 == /\ clpc = "phase2" /\ cl = {} /\ clpc' = "phase3"
-                 /\ UNCHANGED <<mode, running, st, fb, tmo, rtm, retr, wire, nresp, done, cl, clc>>
+                 /\ UNCHANGED <<mode, nsrv, running, qvars, svars, cl, clc>>
 \* phases 3 + 4: erase the marked keys under the lock, then call every marked query back with a timeout -
 \* the code does not look whether the query was still registered (Dev_CleanupRace); the repaired form completes only those
 CleanupFinish == /\ clpc = "phase3" /\ clpc' = "idle" /\ clc' = {}
                  /\ st' = [q \in Queries |-> IF q \in clc /\ Pending(q) THEN "done" ELSE st[q]]
                  /\ done' = [q \in Queries |-> IF q \in clc /\ (Pending(q) \/ Dev_CleanupRace)
                                                THEN Append(done[q], Compl("timeout", 0, "-")) ELSE done[q]]
-                 /\ UNCHANGED <<mode, running, fb, tmo, rtm, retr, wire, nresp, cl>>
+                 /\ UNCHANGED <<mode, nsrv, running, fb, ord, rtm, retr, wire, nresp, lost, svars, cl>>
 \* the retry timer: still pending? send again over the configured protocol (mode Both sends nothing), re-arm the timeout
 RetryFire(q) == /\ running /\ rtm[q] /\ rtm' = [rtm EXCEPT ![q] = FALSE]
                 /\ IF Pending(q) /\ mode # "B"
                    THEN /\ wire' = [wire EXCEPT ![q][IF mode = "T" THEN "tcp" ELSE "udp"] = @ + 1]
-                        /\ tmo' = [tmo EXCEPT ![q] = TRUE]
-                   ELSE UNCHANGED <<wire, tmo>>
-                /\ UNCHANGED <<mode, running, st, fb, retr, nresp, done, cl, clc, clpc>>
+                        /\ ord' = ArmSeq(q)
+                   ELSE UNCHANGED <<wire, ord>>
+                /\ UNCHANGED <<mode, nsrv, running, st, fb, retr, nresp, done, lost, svars, cvars>>
 
 Next == \/ \E q \in Queries : Query(q) \/ QueryStopped(q) \/ Timeout(q) \/ TimeoutStale(q) \/ CleanupLook(q) \/ RetryFire(q)
-        \/ Stop \/ CleanupCollect \/ CleanupPhase3 \/ CleanupFinish
-        \/ \E q \in Queries : RespTruncFallback(q) \/ RespTruncDeliver(q) \/ RespTruncDup(q) \/ RespTruncLate(q) \/ RespOtherServer(q)
+        \/ (\E m \in Modes, n \in NSrvs : Configure(m, n)) \/ Stop \/ CleanupCollect \/ CleanupPhase3 \/ CleanupFinish
+        \/ \E q \in Queries : \/ RespTruncFallback(q) \/ RespTruncDeliver(q) \/ RespTruncDup(q) \/ RespTruncDupHit(q)
+                              \/ RespTruncLate(q) \/ RespOtherServer(q)
         \/ \E q \in Queries, p \in {"udp", "tcp"} :
-             RespAnswerHit(q, p) \/ RespAnswerLate(q, p) \/ RespNxHit(q, p) \/ RespWrongId(q, p) \/ RespWrongQ(q, p)
-             \/ RespMalformedHit(q, p) \/ RespMalformedLate(q, p)
+             \/ RespAnswerHit(q, p) \/ RespAnswerLate(q, p) \/ RespNxHit(q, p) \/ RespWrongId(q, p) \/ RespWrongQ(q, p)
+             \/ RespWrongQHit(q, p) \/ RespMalformedHit(q, p) \/ RespMalformedLate(q, p)
+             \/ \E k \in {"ans", "nx", "trunc", "malformed"} : RespMisrouted(q, p, k)
 Spec == Init /\ [][Next]_vars
 
 \* ---------------------------------------------------------------------------------------------- properties
 AtMostOnce == \A q \in Queries : Len(done[q]) <= 1                                                            \* P1
 \* never none: whatever is pending has an armed timer that will complete it (or is about to be completed by the cleanup)
-PendingHasTimer == \A q \in Queries : Pending(q) => (tmo[q] \/ rtm[q] \/ q \in cl \cup clc)                   \* P1
+PendingHasTimer == \A q \in Queries : Pending(q) => (Armed(q) \/ rtm[q] \/ q \in cl \cup clc)                   \* P1
+NoLostResponse == lost = {}                                                                                   \* P1
 StopCompletes == ~running => \A q \in Queries : st[q] # "idle" => (st[q] = "done" /\ Len(done[q]) = 1)         \* P2
 DoneHasCompletion == \A q \in Queries : st[q] = "done" => Len(done[q]) >= 1                                    \* P1
 Matching == \A q \in Queries : \A i \in 1..Len(done[q]) :                                                      \* P3
@@ -175,5 +225,6 @@ Matching == \A q \in Queries : \A i \in 1..Len(done[q]) :                       
 TruncNotFinal == mode = "B" => \A q \in Queries : \A i \in 1..Len(done[q]) : done[q][i].kind # "trunc"         \* P4
 TcpOnlyAfterTrunc == mode = "B" => \A q \in Queries : wire[q].tcp <= (IF fb[q] THEN 1 ELSE 0)                  \* P4
 Budget == \A q \in Queries : wire[q].udp + wire[q].tcp <= 1 + Retries + (IF fb[q] THEN 1 ELSE 0)              \* P5
-TypeOK == /\ st \in [Queries -> {"idle", "udp", "tcp", "done"}] /\ nresp \in 0..MaxResp /\ clpc \in {"idle", "phase2", "phase3"}
+TypeOK == /\ st \in [Queries -> {"idle", "udp", "tcp", "done"}] /\ mode \in Modes \cup {"-"} /\ nresp \in 0..MaxResp
+          /\ clpc \in {"idle", "phase2", "phase3"} /\ s2s \in [1..2 -> {0, 1, 9}]
 =================================================================================
